@@ -6,6 +6,7 @@ require (
 	github.com/XiXi-2024/xixi-kv v0.0.0
 	github.com/anishathalye/porcupine v1.3.0
 	github.com/cespare/xxhash v1.1.0
+	github.com/gofrs/flock v0.12.1
 	github.com/valyala/bytebufferpool v1.0.0
 	pgregory.net/rapid v1.3.0
 )
@@ -13,7 +14,6 @@ require (
 require (
 	github.com/bwmarrin/snowflake v0.3.0 // indirect
 	github.com/edsrzf/mmap-go v1.2.0 // indirect
-	github.com/gofrs/flock v0.12.1 // indirect
 	github.com/google/btree v1.1.3 // indirect
 	github.com/huandu/skiplist v1.2.1 // indirect
 	golang.org/x/sys v0.22.0 // indirect
